@@ -16,6 +16,13 @@ def main():
     for k in list(env):
         if k.startswith("CODEMODDER_VERIF"):
             del env[k]
+    # the venv has an editable install pointing at /repo/src: make sure the tree under test is the one imported
+    env["PYTHONPATH"] = os.path.join(os.path.abspath(repo), "src")
+    # worktrees lack the setuptools_scm-generated (gitignored) _version.py that tests/test_version.py needs
+    vfile = os.path.join(os.path.abspath(repo), "src", "codemodder", "_version.py")
+    if not os.path.exists(vfile) and os.path.exists("/repo/src/codemodder/_version.py"):
+        import shutil
+        shutil.copy("/repo/src/codemodder/_version.py", vfile)
     cmd = ["/venv/bin/python", "-m", "pytest", "-ra", "-q", "-p", "no:cacheprovider", "--timeout=900",
            "--continue-on-collection-errors", f"--junitxml={junit}"]
     p = subprocess.run(cmd, cwd=repo, env=env, stdout=subprocess.PIPE, stderr=subprocess.STDOUT, text=True)
